@@ -366,12 +366,19 @@ def choose(state, avail, rng, pol):
         k = rng.random()
         if not all(s.hole_cards[i]):
             # unknown hole cards: reveal them with fresh cards
-            fresh = [c for c in s.get_dealable_cards()
+            nun = sum(1 for c in s.hole_cards[i] if not c)
+            fresh = [c for c in s.get_dealable_cards(nun)
                      if c not in s.hole_cards[i]]
             rng.shuffle(fresh)
             if len(fresh) >= sum(1 for c in s.hole_cards[i] if not c):
                 shown = [c if c else fresh.pop() for c in s.hole_cards[i]]
                 return op, [''.join(map(repr, shown)), i]
+        if pol.get('partial_show') and rng.random() < 0.35 \
+                and len(s.hole_cards[i]) > 1:
+            m = rng.randint(1, len(s.hole_cards[i]) - 1)
+            part = rng.sample(list(s.hole_cards[i]), m)
+            if s.can_show_or_muck_hole_cards(tuple(part), i):
+                return op, [''.join(map(repr, part)), i]
         if k < 0.4:
             a = None
         elif k < 0.8:
@@ -400,6 +407,7 @@ def gen_policy(rng):
         'runout_pref': rng.choice([1, 2, 2, 3]),
         'muck': rng.choice(['never', 'losers']),
         'pseed': rng.getrandbits(32),
+        'partial_show': False,
         'ranks': ''.join(rng.sample('A23456789TJQK', rng.choice([2, 3, 4]))),
     }
 
